@@ -10,8 +10,8 @@
    main loop; the table itself is read from /repo and compared with the
    documented one in (5). *)
 From Coq Require Import String.
-From YV Require Import PyBase ShellMap Token Utils Scanner PState Exec Tex2txt
-                       ScanPlain ExecPlain SpecialsProofs Catalogue.
+From YV Require Import PyBase CharTables ShellMap Token Utils Scanner PState Exec Tex2txt
+                       ScanPlain ExecPlain SpecialsProofs RpalProofs ExecUnk ExecArgs Catalogue.
 Open Scope Z_scope.
 
 (* table obligations, discharged by computation on the generated tables *)
@@ -88,6 +88,22 @@ Theorem C06_line_break_step : forall T rd rec fuel st t b env_stop rout,
    rec (TSeq rest env_stop (SpaceT (pos t) s_space :: ActionT (pos t) :: rout)) st').
 Proof. exact step_seq_newline. Qed.
 Print Assumptions C06_replacement_step.
+
+(* (4') end to end through the main loop, for every document of plain text,
+   special sequences, undeclared control words, comments, braces and nested
+   pass-through macros: the visible one-line text of the output is the text
+   tokens of the document, each at its place, and for each special sequence
+   its tabulated text at the position of the sequence (rtoks), in order *)
+Theorem C06_specials_end_to_end : forall rd fuel toks st st' out,
+  bcl py_tables (macros st) toks ->
+  exec py_tables rd fuel (TSeq toks None []) st = Ok (st', ASeq out []) ->
+  filter (solid py_isspace) out = filter (solid py_isspace) (texts (rtoks py_tables toks)).
+Proof.
+  exact (fun rd fuel toks st st' out =>
+           exec_args_positions py_tables rd (eq_refl true) (fun c => eq_refl) (eq_refl true)
+                               fuel toks st st' out (eq_refl true)).
+Qed.
+Print Assumptions C06_specials_end_to_end.
 
 (* (5) the table read from /repo is the documented one *)
 Example C06_documented_table :
